@@ -232,3 +232,30 @@ pub fn split_text_nodes(a: &mut crate::adoc::ANode, rng: &mut crate::rng::Rng, n
         split_text_nodes(c, rng, n);
     }
 }
+
+/// give up to two declaration-free elements the (redundant, legal) declaration xmlns:xml="http://www.w3.org/XML/1998/namespace"
+/// as their ONLY declaration: serialisers never write it, scope stacks must still stay balanced around it
+pub fn add_xml_only_decl(a: &mut crate::adoc::ANode, rng: &mut crate::rng::Rng) -> bool {
+    use crate::adoc::*;
+    let mut n = 0;
+    a.walk(&mut |x| {
+        if x.kind == AKind::Elem && x.decls.is_empty() {
+            n += 1;
+        }
+    });
+    if n == 0 {
+        return false;
+    }
+    let t1 = rng.below(n);
+    let t2 = rng.below(n);
+    let mut seen = 0;
+    a.walk_mut(&mut |x| {
+        if x.kind == AKind::Elem && x.decls.is_empty() {
+            if seen == t1 || seen == t2 {
+                x.decls.push(("xml".to_string(), XML_NS.to_string()));
+            }
+            seen += 1;
+        }
+    });
+    true
+}
